@@ -1605,6 +1605,44 @@ struct Prog {
         }
     }
 
+    // after a serialisation: replace an option by one of the same code and the same size (different bytes). The total size
+    // does not change, so an implementation that caches its encoded options by size would keep emitting the stale bytes.
+    void same_size_replace(Src& st) {
+        std::vector<size_t> cand;
+        for (size_t i = 0; i < model.size(); ++i) if (has_remove(model[i].oc) && !model[i].opts.empty()) cand.push_back(i);
+        if (cand.empty()) return;
+        size_t i = cand[st.pick(cand.size())];
+        PDU& p = *layers[i];
+        LM& m = model[i];
+        MOpt old = m.opts[st.pick(m.opts.size())];
+        const MOpt* first = m.first(old.code);
+        if (!first) return;
+        MOpt victim = *first;
+        if (victim.lenfield != victim.data.size()) return;  // spoofed ones stay as they are
+        bool got = api_remove(p, m.oc, victim.code);
+        text.push_back("L" + std::to_string(i) + " " + m.cls + "::remove(" + code_text(m.oc, victim.code) + ")=" + (got ? "true" : "false") + " [same-size replace]");
+        VCHECK(ctx, got, "C04:" + m.cls + ":remove-result", "remove returned false for a present option | " << program());
+        for (size_t k = 0; k < m.opts.size(); ++k) if (m.opts[k].code == victim.code) { m.opts.erase(m.opts.begin() + k); break; }
+        std::vector<uint8_t> d = victim.data;
+        for (uint8_t& b : d) b = (uint8_t)(b ^ 0x5a ^ st.u8());
+        if (d.empty()) { check_layer(i, "remove", "", victim.code); return; }
+        try {
+            api_add(p, m.oc, victim.code, false, d.size(), d);
+        } catch (const exception_base& e) {
+            VFAIL(ctx, "C04:" + m.cls + ":add-throws:" + demangled(typeid(e)), program());
+        }
+        text.push_back("L" + std::to_string(i) + " " + m.cls + "::add(" + code_text(m.oc, victim.code) + "," + std::to_string(d.size()) + "," + hexs(d) + ") [same-size replace]");
+        MOpt o;
+        o.code = victim.code;
+        o.data = d;
+        o.lenfield = d.size();
+        o.wire = d;
+        if (m.oc == OC_IPV6) while ((o.wire.size() + 2) % 8) o.wire.push_back(0);
+        m.opts.push_back(o);
+        count_opt(o);
+        ctx.label("same-size-replace-after-serialize");
+        check_layer(i, "re-add", "", victim.code);
+    }
     void run_steps() {
         unsigned n = (unsigned)s.weighted({1, 2, 3, 3, 2, 1});
         static const unsigned LO[] = {0, 1, 4, 9, 17, 28}, HI[] = {0, 3, 8, 16, 27, 44};
@@ -1618,7 +1656,7 @@ struct Prog {
         for (unsigned k = 0; k < steps; ++k) {
             Src st = s.sub();
             size_t i = st.pick(layers.size());
-            unsigned kind = (unsigned)st.weighted({5, 8, 5, 7, 3, 1, 1, 2});
+            unsigned kind = (unsigned)st.weighted({5, 8, 5, 7, 3, 1, 3, 2});
             if (!listl.empty() && st.chance(45)) kind = 7;
             if (kind >= 1 && kind <= 4) {
                 if (optl.empty()) kind = 0;
@@ -1640,7 +1678,7 @@ struct Prog {
                 case 3: remove_step(i, st); break;
                 case 4: raw_add(i, st, true); break;
                 case 5: clone_step(); break;
-                case 6: if (!serialize_step()) return; break;
+                case 6: if (!serialize_step()) return; if (st.chance(60)) same_size_replace(st); break;
                 default: list_step(i, st); break;
             }
         }
